@@ -88,7 +88,7 @@ def main(argv=None):
         print("class %s: %d run(s)" % (sig, len(new_classes[sig])))
     for sig in sorted(new_classes):
         cases = [c for c in new_classes[sig] if c[2] is not None]
-        if not cases or len(replays) >= 4:
+        if not cases or len(replays) >= 3:
             continue
         idx, seed, plan, od = sorted(cases, key=lambda c: c[0])[0]
         small, info = shrink.shrink(eng, plan, prop, od["oracle"])
